@@ -25,12 +25,13 @@ class FakeFile:
 
 
 class RunEnv:
-    def __init__(self, mods, blocks, files=None, exists=None, legacy_blocks=None):
+    def __init__(self, mods, blocks, files=None, exists=None, legacy_blocks=None, environ=None):
         """blocks: list of (ts, buf) as the pcapng reader would yield them (ts == -1 marks a DSB with buf = secrets text bytes).
         files: path -> text content of readable files; exists: path -> bool | SymBool (defaults to `path in files`)."""
         self.mods, self.blocks, self.files = mods, blocks, files or {}
         self.exists = exists or (lambda p: p in self.files)
         self.legacy_blocks = legacy_blocks
+        self.environ = dict(environ or {})          # what the process environment holds, as far as the program can see it
         self.written = []
         self.opened = []
         self.reader_kind = None
@@ -55,8 +56,19 @@ class RunEnv:
             def exists(p):
                 return env.exists(p)
 
+        import os as real_os
+
         class Os:
             path = OsPath
+            environ = env.environ
+
+            @staticmethod
+            def getenv(name, default=None):
+                return env.environ.get(name, default)
+
+            def __getattr__(self, name):
+                return getattr(real_os, name)
+        Os = Os()
 
         class NgReader:
             def __init__(self, f):
@@ -95,6 +107,13 @@ class RunEnv:
         main.Reader = NgReader
         klr.open = fake_open
         klr.os = Os
+        for m in self.mods.values():
+            if getattr(m, "os", None) is not None and m is not klr:
+                m.os = Os
+            if "environ" in vars(m):
+                m.environ = env.environ
+            if "getenv" in vars(m):
+                m.getenv = Os.getenv
         klr.exit = _exit
         main.set_logger = lambda args: None
 
